@@ -574,6 +574,34 @@ def r15_4(cx):
             cx.report('R15.4', p, 'available', used, 'available bytes = end.distance(start)' if used else 'the length test does not use end.distance(start)')
 
 
+    # who may call the unguarded comparison: only the two length-checking wrappers (a helper that is not part of the vocabulary
+    # counts for its vocabulary callers)
+    from acverif.rl import CallGraph
+    from acverif.inline import vocab
+    cg = CallGraph(cx.facts)
+    V = vocab()
+    callers = {}
+    for q in cx.facts.bodies:
+        for blk, tg in cg.callees(q):
+            callers.setdefault(tg, set()).add(q)
+
+    def owners(q, seen):
+        if q in V or q in seen:
+            return {q}
+        seen.add(q)
+        out = set()
+        for c in callers.get(q, ()):
+            out |= owners(c, seen)
+        return out or {q}
+    who = set()
+    for q in callers.get('packed::pattern::is_equal_raw', ()):
+        who |= owners(q, set())
+    allowed = {"packed::pattern::Pattern::<'p>::is_prefix_raw", 'packed::pattern::is_prefix'}
+    extra = sorted(who - allowed)
+    cx.report('R15.4', b, 'callers', not extra and bool(who), 'is_equal_raw (reads n bytes unconditionally) is called only by is_prefix / is_prefix_raw, which compare n with the available bytes first' if not extra and who else
+              'is_equal_raw is also reached from %s without the length test of is_prefix / is_prefix_raw' % extra)
+
+
 @only(X86)
 def r15_6(cx):
     for nm in ('SlimMaskBuilder', 'FatMaskBuilder'):
